@@ -769,6 +769,9 @@ def generate_derivative_real_spherical_harmonics(l_max: int, theta: np.ndarray, 
     output = np.zeros((2, int((l_max + 1) ** 2), num_pts), dtype=np.longdouble)
 
     complex_expon = np.exp(-theta * 1.0j)  # Needed for derivative wrt to phi
+    # SciPy uses |sin(phi)|^m in the associated Legendre functions: restore the sign of sin(phi)
+    # for polar angles outside [0, pi], consistently with `generate_real_spherical_harmonics`.
+    sign_sin_phi = np.where(np.sin(phi) < 0, -1.0, 1.0)
     l_list = np.arange(l_max + 1)
     sph_harm_vals = generate_real_spherical_harmonics(l_max, theta, phi)
     i_output = 0
@@ -799,6 +802,7 @@ def generate_derivative_real_spherical_harmonics(l_max: int, theta: np.ndarray, 
             sph_harm_m = (
                 fac
                 * sph_harm_y(l_val, np.abs(int(m)) + 1, phi, theta)
+                * sign_sin_phi ** (np.abs(int(m)) + 1)
                 * np.sqrt(2)
                 * (-1.0) ** float(m)
             )
